@@ -573,3 +573,37 @@ def define_value_source(run):
                 bad.append("%s at %s" % (c.rsplit("::", 2)[-2] + "::" + c.rsplit("::", 1)[-1], f.loc(t["span"])))
     run.check(lit >= 1 and not bad, R, R + "|define|value-by-literal-parser", pd.loc(), "the number of a -d definition is produced by the language's literal parser only",
               "parse_define_arg builds the value of a definition by other means than the language's literal parser (%s): the value loses the width its text has (`-dKEY=0x00ff` is 16 bits wide in the source language)" % (", ".join(bad) or "literal parser call not found"))
+
+
+def condition_context_rule(run, R="SYM"):
+    """names in an #if condition are looked up from where the block stands: resolve_ifs hands the evaluation the context that
+    symbol_ctx_at answers for the block's position, and symbol_ctx_at selects the nearest preceding symbol by *kind of node* only
+    (every branch in it and in its closures is on an enum discriminant: node kind, Option, iterator protocol) - a test on a value
+    (a nesting level, a name) would skip some symbols, and `..k` in a condition would stop meaning what it means on the next line"""
+    f = run.anchor(R, "asm::resolver::directive_if::resolve_ifs")
+    g = run.anchor(R, "asm::resolver::directive_if::symbol_ctx_at")
+    if f is None or g is None:
+        return
+    sites = [(bi, t) for bi, t in f.calls() if (t.get("resolved") or t.get("callee") or "") == g.id]
+    ok1 = len(sites) == 1
+    if ok1:
+        ev = [(bi, t) for bi, t in f.calls() if re.search(r"(eval_certain|eval_simple|eval_with_ctx|EvalContext)", t.get("resolved") or t.get("callee") or "")]
+        from rules_mpt import source_chain
+        ok1 = any(any("symbol_ctx_at" in str(x) for x in source_chain(f, a)) for bi, t in ev for a in t["args"] if op_place(a) is not None)
+    run.check(ok1, R, R + "|condition-context|handed-on", f.loc(), "resolve_ifs asks symbol_ctx_at for the context of the block's position and hands it to the evaluation of the condition",
+              "resolve_ifs does not evaluate the condition under the context of symbol_ctx_at: dotted names in a condition would be looked up from somewhere else than names on the next line")
+    fam = [h for h in run.prog.real_fns() if h.id == g.id or h.id.startswith(g.id + "::{closure")]
+    bad, n = [], 0
+    for h in fam:
+        for bi in sorted(h.reachable()):
+            t = h.blocks[bi]["term"]
+            if t["k"] != "switch":
+                continue
+            n += 1
+            d = str(deep(h, t["discr"], 4))
+            if not d.startswith("discr("):
+                bad.append("%s: %s" % (h.loc(t["span"]), d[:80]))
+    reads_ctx = any(".ctx" in str(st) or "'ctx'" in str(st) for h in fam for _, _, st in h.stmts())
+    run.check(n >= 1 and not bad and reads_ctx, R, R + "|condition-context|nearest-symbol", g.loc(),
+              "symbol_ctx_at picks the nearest preceding symbol by node kind alone (%d branch(es), all on enum discriminants) and answers its context" % n,
+              "symbol_ctx_at branches on a value (%s): some preceding symbols are skipped when the context of an #if block is determined, so a name with leading dots in a condition resolves differently from the same name written on the next line" % ("; ".join(bad) or "selection not found"))
